@@ -1,2 +1,5 @@
 import SluVerif.Props.C08
+import SluVerif.Props.C18
 #print axioms Slu.hist_correct_from_empty
+#print axioms Slu.ustep_system
+#print axioms Slu.fresh_call_independent
